@@ -81,6 +81,31 @@ func (c *Ctx) rulesR4resolver() {
 					}
 					return fromPR(st.Val, st, d+1)
 				}
+				// a variable captured by a closure: what it holds where the
+				// closure is made
+				if fv, ok := x.X.(*ssa.FreeVar); ok && fv.Parent() != nil && fv.Parent().Parent() != nil {
+					clo, par := fv.Parent(), fv.Parent().Parent()
+					for _, b := range par.Blocks {
+						for _, ins := range b.Instrs {
+							mc, ok := ins.(*ssa.MakeClosure)
+							if !ok || mc.Fn != ssa.Value(clo) {
+								continue
+							}
+							for j, fvv := range clo.FreeVars {
+								if fvv != fv || j >= len(mc.Bindings) {
+									continue
+								}
+								if al, ok := mc.Bindings[j].(*ssa.Alloc); ok {
+									st := reachingStore(al, mc)
+									if st == nil {
+										return false, "the assignment of " + al.Comment + " that reaches the scan is not unique"
+									}
+									return fromPR(st.Val, st, d+1)
+								}
+							}
+						}
+					}
+				}
 			}
 		case *ssa.ChangeType:
 			return fromPR(x.X, at, d+1)
@@ -115,6 +140,16 @@ func (c *Ctx) rulesR4resolver() {
 				}
 				clo := mc.Fn.(*ssa.Function)
 				sites := c.sitesIn(clo, funcKey(sb))
+				// or in a private method the predicate delegates to
+				for _, b2 := range clo.Blocks {
+					for _, in2 := range b2.Instrs {
+						if ci, ok := in2.(ssa.CallInstruction); ok {
+							if cal := ci.Common().StaticCallee(); cal != nil && cal != sb && cal.Parent() == nil && len(cal.Blocks) > 0 && c.hostedBy(cal, ts) {
+								sites = append(sites, c.sitesIn(cal, funcKey(sb))...)
+							}
+						}
+					}
+				}
 				if len(sites) == 0 {
 					continue
 				}
